@@ -7,7 +7,7 @@ import re
 
 from ..cfg import CFG
 from ..facts import calls_in
-from ..index import FuncInfo, dotted_of, norm, own_nodes, short
+from ..index import ClassInfo, FuncInfo, dotted_of, norm, own_nodes, short
 from ..shared import s1_sites
 from . import c03, c17
 
@@ -24,8 +24,11 @@ RULES = {
     "without an intervening clear (double emission)",
     "R5": "name correspondence: a direct single-field copy proto.F = ir.G (writer) / G=<read of proto.F> (reader) "
     "pairs a field with the attribute of the same name or an entry of the alias table",
+    "R6": "no store of deserialized data into an IR object is controlled by an ==/!= comparison of objects whose class "
+    "defines a partial __eq__ (one that ignores part of the instance state, e.g. denotations): 'equal' does not mean "
+    "'carries the same information', so skipping or choosing the store on it drops proto content",
 }
-FLOORS = {"R1": 100, "R2": 40, "R3": 30, "R4": 1, "R5": 40}
+FLOORS = {"R1": 100, "R2": 40, "R3": 30, "R4": 1, "R5": 40, "R6": 20}
 EXPLANATION = (
     "Types every proto expression of serde.py through parameter annotations and the parsed onnx-ml.proto schema, "
     "collects per message the fields the deserializer reads and the serializer writes (attribute access, HasField, "
@@ -383,7 +386,101 @@ def rule_r5(ctx):
     ctx.require(n >= 40, f"only {n} direct field copies recognised")
 
 
+def partial_eq_classes(ctx) -> dict[str, tuple]:
+    """{class key: (ClassInfo, ignored fields)} for package classes whose own/inherited __eq__ ignores instance state."""
+    repo = ctx.repo
+    out = {}
+    for m in repo.modules.values():
+        if not m.name.startswith("onnx_ir"):
+            continue
+        for c in m.classes.values():
+            eq = repo.lookup(c, "__eq__")
+            if not isinstance(eq, FuncInfo) or eq.cls is None or eq.cls.external:
+                continue
+            fields = set()
+            for k in repo.mro(c):
+                if isinstance(k, ClassInfo) and not k.external:
+                    fields |= set(k.slots or ())
+                    init = k.methods.get("__init__")
+                    if init is not None:
+                        for n in own_nodes(init.node):
+                            if isinstance(n, (ast.Assign, ast.AnnAssign)):
+                                for t in n.targets if isinstance(n, ast.Assign) else [n.target]:
+                                    if isinstance(t, ast.Attribute) and norm(t.value) == "self":
+                                        fields.add(t.attr)
+            fields = {x for x in fields if x not in ("__weakref__", "__dict__", "_frozen") and "cache" not in x}
+            if not fields:
+                continue
+            # everything __eq__ may look at: attributes read from self (through properties), or self as a whole (repr/str/iter)
+            reads, whole = set(), False
+            bodies = [eq]
+            for n in own_nodes(eq.node):
+                if isinstance(n, ast.Call) and isinstance(n.func, ast.Attribute) and norm(n.func.value) == eq.params[0]:
+                    g = repo.lookup(c, n.func.attr)
+                    if isinstance(g, FuncInfo):
+                        bodies.append(g)
+            for n in (x for b in bodies for x in own_nodes(b.node)):
+                if isinstance(n, ast.Attribute) and norm(n.value) in (eq.params[0], "self"):
+                    reads.add(n.attr)
+                    reads.add("_" + n.attr)
+                elif isinstance(n, ast.Call) and any(norm(a) == eq.params[0] for a in n.args):
+                    whole = True
+            if whole:
+                continue
+            ignored = sorted(x for x in fields if x not in reads and x.lstrip("_") not in {r.lstrip("_") for r in reads})
+            if ignored:
+                out[c.key] = (c, ignored)
+    return out
+
+
+def rule_r6(ctx):
+    ty = ctx.typer
+    partial = partial_eq_classes(ctx)
+    ctx.tables["classes with a partial __eq__"] = {k: v[1] for k, v in sorted(partial.items())}
+    ctx.require(any(k.endswith(":Shape") for k in partial), "Shape.__eq__ no longer ignores denotations? (partial-equality table is empty for Shape)")
+    n = 0
+    for f in reader_funcs(ctx):
+        for st in own_nodes(f.node):
+            tgt = None
+            if isinstance(st, (ast.Assign, ast.AugAssign, ast.AnnAssign)):
+                for t in st.targets if isinstance(st, ast.Assign) else [st.target]:
+                    if isinstance(t, (ast.Attribute, ast.Subscript)):
+                        tgt = t
+            elif isinstance(st, ast.Expr) and isinstance(st.value, ast.Call) and isinstance(st.value.func, ast.Attribute) \
+                    and st.value.func.attr in ("update", "append", "extend", "add", "setdefault", "insert"):
+                tgt = st.value.func
+            if tgt is None:
+                continue
+            base = tgt
+            while isinstance(base, (ast.Attribute, ast.Subscript, ast.Call)):
+                base = base.value if not isinstance(base, ast.Call) else base.func
+            if not isinstance(base, ast.Name) or base.id == "self":
+                continue
+            n += 1
+            bad = None
+            p = getattr(st, "_parent", None)
+            while p is not None and p is not f.node and bad is None:
+                if isinstance(p, (ast.If, ast.While, ast.IfExp)):
+                    for cmp_ in ast.walk(p.test):
+                        if isinstance(cmp_, ast.Compare) and any(isinstance(o, (ast.Eq, ast.NotEq)) for o in cmp_.ops):
+                            for operand in [cmp_.left, *cmp_.comparators]:
+                                ks = []
+                                for k in ty.recv_classes(f, operand):
+                                    ks += [x for x in ctx.repo.subclasses(k) if not x.name.endswith("Protocol")] if k.name.endswith("Protocol") else [k]
+                                for k in ks:
+                                    if k.key in partial and bad is None:
+                                        bad = (cmp_, k, partial[k.key][1])
+                p = getattr(p, "_parent", None)
+            ctx.check("R6", f"{f.local}: {short(norm(st))} not guarded by a partial equality", bad is None, f, st,
+                      (f"the store is controlled by `{norm(bad[0])}`, but {bad[1].name}.__eq__ ignores {bad[2]}: when the IR object "
+                       "already holds an 'equal' object the proto's content for the ignored part is dropped") if bad else "",
+                      how="controlling tests of the store; operand classes typed; __eq__ read set vs instance fields",
+                      nontrivial=False, construct=f"{short(norm(st))} under {norm(bad[0]) if bad else ''}")
+    ctx.require(n >= 20, f"only {n} IR stores found in the deserialize functions")
+
+
 def run(ctx):
+    rule_r6(ctx)
     rule_r1(ctx)
     rule_r2(ctx)
     rule_r3(ctx)
